@@ -152,6 +152,84 @@ def gen_graph(tape, max_nodes=12, min_nodes=1):
     return {"nodes": nodes}
 
 
+def gen_graph_wide(tape, max_leaves=12):
+    """Many independent tasks feeding a few reducers: lots of tasks ready and running at once
+    (what saturates the workers of a pool with batches of several sizes)."""
+    nodes, prev = [], []
+    with tape.span("wide"):
+        m = 5 + tape.draw(max_leaves - 4, "leaves")
+        nred = 1 + tape.draw(3, "reducers")
+        for i in range(m + nred):
+            key = f"k{i}"
+            form = "legacy" if tape.chance(1, 2, "form") is False else "obj"
+            node = {"key": key, "kind": "task", "form": form, "tag": [keyrepr(key), 0, 0, None],
+                    "args": [], "kwargs": []}
+            if i >= m:
+                nin = 2 + tape.draw(3, "nin")
+                node["args"] = [["ref", prev[tape.draw(len(prev), "in")]] for _ in range(nin)]
+            nodes.append(node)
+            prev = prev + [key]
+    return {"nodes": nodes}
+
+
+def gen_graph_forest(tape):
+    """14-20 tasks, three roots, every other task depending on one (mostly) or two earlier ones, and a
+    sink over all tasks nobody else consumes.  With 3 workers and batches of 2 this family reaches,
+    in about 1 % of its runs, dispatch rounds in which tasks are ready while the outstanding batches
+    ([1][1][2][2]: more batches than workers) leave no worker free."""
+    nodes, prev = [], []
+    with tape.span("forest"):
+        n = 14 + tape.draw(7, "n")
+        used = set()
+        for i in range(n):
+            key = f"k{i}"
+            form = "legacy" if tape.chance(1, 2, "form") is False else "obj"
+            node = {"key": key, "kind": "task", "form": form, "tag": [keyrepr(key), 0, 0, None],
+                    "args": [], "kwargs": []}
+            if i >= 3:
+                nin = 2 if tape.draw(5, "nin") == 0 else 1
+                ins = {prev[tape.draw(len(prev), "in")] for _ in range(nin)}
+                node["args"] = [["ref", k] for k in sorted(ins)]
+                used |= ins
+            nodes.append(node)
+            prev = prev + [key]
+        key = f"k{n}"
+        nodes.append({"key": key, "kind": "task", "form": "obj", "tag": [keyrepr(key), 0, 0, None],
+                      "args": [["ref", k] for k in prev if k not in used], "kwargs": []})
+    return {"nodes": nodes}
+
+
+def gen_graph_layered(tape, max_nodes=16):
+    """Layers of tasks, each depending on one (fan-out) or two tasks of the layer above: every
+    completion readies a varying number of new tasks, so that dispatch rounds see odd numbers of
+    ready tasks, singleton batches and more batches than workers."""
+    nodes, prev = [], []
+    with tape.span("layered"):
+        layers = [[f"k{i}" for i in range(1 + tape.draw(4, "w0"))]]
+        n = len(layers[0])
+        for _ in range(2 + tape.draw(3, "depth")):
+            w = 1 + tape.draw(5, "w")
+            if n + w > max_nodes:
+                break
+            layers.append([f"k{n + j}" for j in range(w)])
+            n += w
+        for li, layer in enumerate(layers):
+            for key in layer:
+                form = "legacy" if tape.chance(1, 2, "form") is False else "obj"
+                node = {"key": key, "kind": "task", "form": form, "tag": [keyrepr(key), 0, 0, None],
+                        "args": [], "kwargs": []}
+                if li:
+                    above = layers[li - 1]
+                    nin = 1 if tape.draw(3, "nin") else min(2, len(above))
+                    node["args"] = [["ref", above[tape.draw(len(above), "in")]] for _ in range(nin)]
+                nodes.append(node)
+        # a sink over the last layer so that one request needs everything
+        key = f"k{n}"
+        nodes.append({"key": key, "kind": "task", "form": "obj", "tag": [keyrepr(key), 0, 0, None],
+                      "args": [["ref", k] for k in layers[-1]] + [["ref", layers[0][0]]], "kwargs": []})
+    return {"nodes": nodes}
+
+
 def gen_request(tape, spec):
     keys = [n["key"] for n in spec["nodes"]]
     with tape.span("request"):
